@@ -523,9 +523,25 @@ def run(ctx, rep):
     ga = ctx.cfg(fa)
     rep.analysed(fa, ga)
     rda = Q.ReachingDefs(ga)
-    seq_defs = [n for n in ga.live if n.kind == "stmt" and isinstance(n.ast, ast.Assign)
-                and A.find_calls(n.ast, "self._get_seq_id")]
+    conn_cls = ctx.cls(K.CONN)
+
+    def seq_alloc(node_ast):
+        """(allocator function, next() call) when the statement draws a number: `next(self.<counter>)` written here or inside
+        the one-line method of the connection it calls (`self._get_seq_id()`)"""
+        for c_ in A.calls(node_ast):
+            if A.call_name(c_) == "next" and c_.args and K.self_attr(c_.args[0]):
+                return fa, c_
+            d_ = A.call_name(c_) or ""
+            if d_.startswith("self.") and d_[5:] in conn_cls.methods and not c_.args and not c_.keywords:
+                m_ = conn_cls.methods[d_[5:]]
+                nx_ = [x for x in A.find_calls(m_.node, "next") if x.args and K.self_attr(x.args[0])]
+                if nx_:
+                    return m_, nx_[0]
+        return None
+    seq_defs = [n for n in ga.live if n.kind == "stmt" and isinstance(n.ast, ast.Assign) and seq_alloc(n.ast)]
     rep.floor("R08.4", "sequence allocation in _async_request", len(seq_defs), 1)
+    if not seq_defs:
+        raise AnalysisError("_async_request no longer draws its sequence number from a counter with next()")
     seqv = seq_defs[0].ast.targets[0].id if isinstance(seq_defs[0].ast.targets[0], ast.Name) else None
     reg = [n for n in ga.live if n.kind == "stmt" and isinstance(n.ast, ast.Assign) and any(
         isinstance(t, ast.Subscript) and K.self_attr(t.value) and isinstance(t.slice, ast.Name) and t.slice.id == seqv
@@ -568,15 +584,17 @@ def run(ctx, rep):
                "a send failure leaves a stale callback registered", ctx.loc(s), witness=ctx.path(bad) if bad else None)
 
     # ------------------------------------------------------------------ R08.5
-    fs = ctx.func(K.CONN + "._get_seq_id")
-    rets = [n for n in A.walk(fs.node) if isinstance(n, ast.Return)]
-    nexts = A.find_calls(fs.node, "next")
-    fld = None
-    if len(nexts) == 1 and nexts[0].args:
-        fld = K.self_attr(nexts[0].args[0])
-    stores = [n for n in A.walk(fs.node) if isinstance(n, (ast.Assign, ast.AugAssign))]
-    ok5 = len(rets) == 1 and len(nexts) == 1 and fld is not None and not stores and rets[0].value is nexts[0]
-    rep.ob("R08.5", "_get_seq_id: a single next() on the per-connection counter", ok5,
+    fs, nx0 = seq_alloc(seq_defs[0].ast)
+    fld = K.self_attr(nx0.args[0])
+    if fs is fa:
+        # drawn in _async_request itself: the number is the value of the next() call, stored once
+        ok5 = len(seq_defs) == 1 and seq_defs[0].ast.value is nx0 and len(A.find_calls(fa.node, "next")) == 1
+    else:
+        rets = [n for n in A.walk(fs.node) if isinstance(n, ast.Return)]
+        nexts = A.find_calls(fs.node, "next")
+        stores = [n for n in A.walk(fs.node) if isinstance(n, (ast.Assign, ast.AugAssign))]
+        ok5 = len(rets) == 1 and len(nexts) == 1 and not stores and rets[0].value is nexts[0] and len(seq_defs) == 1
+    rep.ob("R08.5", "the sequence number is a single next() on the per-connection counter", ok5,
            "returns next(self.%s) and nothing else" % fld if ok5 else
            "sequence numbers are not produced by one atomic next() on a counter (read-modify-write or several steps)",
            fs.loc)
@@ -597,8 +615,7 @@ def run(ctx, rep):
                "the counter field is only bound in __init__" if not writers else
                "the sequence counter is re-bound at %s (numbers can repeat)" % ", ".join(ctx.loc(w) for w in writers),
                ctx.loc(writers[0]) if writers else fs.loc, kind="site")
-        users = [c for fu, c in ctx.call_sites("self._get_seq_id")]
-        rep.floor("R08.5", "users of _get_seq_id", len(users), 1)
+        rep.floor("R08.5", "places that draw a sequence number", len(seq_defs), 1)
 
     # ------------------------------------------------------------------ R08.6
     K.share(ctx, rep, "c12", lambda o: o.rule in ("R12.1", "R12.2", "R12.3", "R12.5", "R12.6", "R12.7"), "R08.6", floor=8)
